@@ -22,6 +22,26 @@ ZERO_WEIGHTS = [("[&W 0]", 0.0, None), ("[&W 0/5]", 0.0, 5.0), ("[&W 0.0]", 0.0,
 ROOTING = [("", None), ("", None), ("[&R]", True), ("[&U]", False), ("[&r]", True), ("[&u]", False)]
 
 
+QUOTED_LABELS = [l for l in docs.QUOTED_LABELS if len(l) > 1]     # without the single structural characters
+
+
+def label_sets(n, pools=None, weights=(6, 1, 2)):
+    """docs.label_sets without labels that are ONE structural character (quoted ';' ',' ... are misread: the listed
+    C02/C09 known finding, which the C13 check skips)"""
+    if pools is None:
+        pools = (docs.PLAIN_LABELS, docs.SPACED_LABELS, QUOTED_LABELS)
+    return docs.label_sets(n, pools=pools, weights=weights[:len(pools)])
+
+
+def _tame(draw, strategy):
+    """a docs.tree_specs spec whose internal labels are not ONE structural character (see label_sets)"""
+    spec = draw(strategy)
+    for sp in shapes.spec_nodes(spec):
+        if sp.get("lab") is not None and len(sp["lab"]) == 1 and not sp["lab"].isalnum():
+            sp["_lab"], sp["lab"] = draw(st.sampled_from([("n1", "n1"), ("X", "X"), ("95", "95"), ("anc_1", "anc 1")]))
+    return spec
+
+
 @st.composite
 def pre_tokens(draw, plain=False, zero_ok=False):
     """Comment tokens in front of a tree description: (text, rooted, weight, n_comments).  zero_ok: the weight may be a
@@ -66,7 +86,7 @@ def _recase(draw, labels, label_texts, taxa):
 @st.composite
 def rich_newick_docs(draw, max_taxa=6, max_trees=4, recase=False):
     ntax = draw(st.integers(1, max_taxa))
-    labels = draw(docs.label_sets(ntax))
+    labels = draw(label_sets(ntax))
     texts = [draw(docs.nexus_label_text(l)) for l in labels]
     ntrees = draw(st.integers(2, max_trees))
     trees = []
@@ -77,7 +97,7 @@ def rich_newick_docs(draw, max_taxa=6, max_trees=4, recase=False):
         if recase and k:
             leaf_text, ch = _recase(draw, labels, texts, range(ntax))
             feats["recased"] = feats["recased"] or ch
-        spec = draw(docs.tree_specs(list(range(ntax)), max_leaves=max_taxa, fancy=True))
+        spec = _tame(draw, docs.tree_specs(list(range(ntax)), max_leaves=max_taxa, fancy=True))
         pre, rooted, weight, ncm = draw(pre_tokens(zero_ok=any(t["weight"] for t in trees)))
         s = draw(docs.newick_text(spec, leaf_text, True))
         if s == "":
@@ -95,11 +115,13 @@ def rich_newick_docs(draw, max_taxa=6, max_trees=4, recase=False):
 
 
 @st.composite
-def rich_nexus_docs(draw, max_taxa=5, max_trees=3, max_blocks=3, max_chars=6, recase=False, taxa=None, labels=None):
-    # taxa: None = TAXA block drawn; True / False = always / never written.  labels: the taxon labels to use
+def rich_nexus_docs(draw, max_taxa=5, max_trees=3, max_blocks=3, max_chars=6, recase=False, taxa=None, labels=None,
+                    translate=None):
+    # taxa: None = TAXA block drawn; True / False = always / never written.  labels: the taxon labels to use.
+    # translate=True: every TREES block has a TRANSLATE table
     if labels is None:
         ntax = draw(st.integers(1, max_taxa))
-        labels = draw(docs.label_sets(ntax))
+        labels = draw(label_sets(ntax))
     else:
         labels = list(labels)
         ntax = len(labels)
@@ -135,6 +157,8 @@ def rich_nexus_docs(draw, max_taxa=5, max_trees=3, max_blocks=3, max_chars=6, re
         if draw(st.integers(0, 3)) == 0:
             out += "  " + draw(st.sampled_from(PRE_COMMENTS + PRE_META)) + "\n"
         style = draw(st.sampled_from(["labels", "labels", "translate", "translate"] + (["numbers"] if numbered else [])))
+        if translate:
+            style = "translate"
         leaf_text = dict((i, label_texts[i]) for i in taxa)
         # (not with matrices: routes that skip the DATA block would meet the re-cased spelling first)
         if recase and not n_matrix and (tb or taxa_block):
@@ -154,7 +178,7 @@ def rich_nexus_docs(draw, max_taxa=5, max_trees=3, max_blocks=3, max_chars=6, re
             out += "  TRANSLATE\n    " + draw(st.sampled_from([",\n    ", ", "])).join(items) + \
                    draw(st.sampled_from(["\n  ;\n", ";\n"]))
         for _ in range(draw(st.integers(1, max_trees))):
-            spec = draw(docs.tree_specs(taxa, max_leaves=max_taxa, fancy=True))
+            spec = _tame(draw, docs.tree_specs(taxa, max_leaves=max_taxa, fancy=True))
             pre, rooted, weight, ncm = draw(pre_tokens(zero_ok=any(t["weight"] for t in trees)))
             s = draw(docs.newick_text(spec, leaf_text, True))
             if s == "":
@@ -199,7 +223,7 @@ def numeric_newick_docs(draw, max_taxa=6, max_trees=4):
     trees = []
     out = ""
     for k in range(draw(st.integers(1, max_trees))):
-        spec = draw(docs.tree_specs(list(range(ntax)), max_leaves=max_taxa, fancy=fancy, blanks=False))
+        spec = _tame(draw, docs.tree_specs(list(range(ntax)), max_leaves=max_taxa, fancy=fancy, blanks=False))
         pre, rooted, weight, ncm = draw(pre_tokens(plain=not fancy, zero_ok=any(t["weight"] for t in trees)))
         s = draw(docs.newick_text(spec, labels, fancy))
         if s == "":
@@ -236,7 +260,7 @@ def ultrametric_newick_docs(draw, max_taxa=6, max_trees=4, nexus=False):
     heights are sums of dyadic steps, so the written lengths add up exactly): the inputs on which node ages are defined.
     Written as Newick statements, or as one NEXUS TREES block when nexus=True."""
     ntax = draw(st.integers(2, max_taxa))
-    labels = draw(docs.label_sets(ntax, pools=(docs.PLAIN_LABELS,), weights=(1,)))
+    labels = draw(label_sets(ntax, pools=(docs.PLAIN_LABELS,), weights=(1,)))
     rtoken = draw(st.sampled_from(["", "[&R]", "[&R]", "[&U]"]))     # one rooting for the whole document
     trees = []
     out = "#NEXUS\nBEGIN TREES;\n" if nexus else ""
